@@ -7,14 +7,15 @@
 
   STATUS.  Proved: the span of every statement the parser adds starts at the first byte of its
   mnemonic/directive token and ends with the last consumed operand token (on the parser step,
-  `PState.addStmt`: start proved, end `span_covers_operands` stated); addresses that hold no statement show nothing; a label
+  `PState.addStmt`: `span_starts_at_statement_token`, `span_covers_operands_holds`); the tokens one
+  `.fill` / `.blkw` / `.stringz` directive expands to all carry one span
+  (`multiword_share_span_holds`, on the preprocessor step); addresses that hold no statement show nothing; a label
   location resolves to `orig + line − 1 + offset` for EVERY origin (incl. ≥ 0x8000) whenever that
   lies in `[orig, 0xFE00)`, and is refused otherwise.  Stated only (`def … : Prop`): the
-  whole-program facts that need an induction over `parseLoop` carrying span information
-  (`span_inside_source`, `multiword_share_span`) and the text-level round trip
-  `span_text_eq_statement` (needs C01's `render` and its stage 3).  These three are checked on
-  every run by the three-way correspondence (implementation vs. model spans vs. the generator's
-  own statement texts).
+  whole-program fact that needs an induction over `parseLoop` carrying span information
+  (`span_inside_source`) and the text-level round trip `span_text_eq_statement` (needs C01's
+  `render` and its stage 3).  These are checked on every run by the three-way correspondence
+  (implementation vs. model spans vs. the generator's own statement texts).
 -/
 import Lace.Model.AsmSource
 import Lace.Proofs.DbgBasics
@@ -43,6 +44,35 @@ def span_covers_operands : Prop :=
       (tok.span.offs < e → a.span.offs + a.span.len = e) ∧
       (e ≤ tok.span.offs → a.span = tok.span)
 
+/-- `span_covers_operands`, proved: a direct unfolding of `PState.addStmt`. -/
+theorem span_covers_operands_holds : span_covers_operands := by
+  intro st tok stmt te
+  cases te with
+  | none =>
+    refine ⟨_, _, rfl, ?_, ?_⟩
+    · intro h
+      have h' : ¬ st.tokEnd ≤ tok.span.offs := by simpa [Option.getD] using h
+      show tok.span.offs + (if st.tokEnd ≤ tok.span.offs then tok.span.len else st.tokEnd - tok.span.offs) = _
+      rw [if_neg h']
+      simp only [Option.getD] at h ⊢
+      omega
+    · intro h
+      have h' : st.tokEnd ≤ tok.span.offs := h
+      show Span.mk tok.span.offs (if st.tokEnd ≤ tok.span.offs then tok.span.len else st.tokEnd - tok.span.offs) = _
+      rw [if_pos h']
+  | some e =>
+    refine ⟨_, _, rfl, ?_, ?_⟩
+    · intro h
+      have h' : ¬ e ≤ tok.span.offs := by simpa [Option.getD] using h
+      show tok.span.offs + (if e ≤ tok.span.offs then tok.span.len else e - tok.span.offs) = _
+      rw [if_neg h']
+      simp only [Option.getD] at h ⊢
+      omega
+    · intro h
+      have h' : e ≤ tok.span.offs := h
+      show Span.mk tok.span.offs (if e ≤ tok.span.offs then tok.span.len else e - tok.span.offs) = _
+      rw [if_pos h']
+
 /-- Every statement span of an assembled image lies inside the source on character boundaries, so
 the debugger's slice `&src[span]` never panics.  STATED. -/
 def span_inside_source : Prop :=
@@ -51,12 +81,75 @@ def span_inside_source : Prop :=
     ∀ p ∈ img.spans, ∃ t, sliceBytes src p.1 p.2 = some t
 
 /-- The words of one `.stringz` / `.blkw` directive all carry the span of that directive (from
-the `.` of the directive to the end of its literal).  STATED. -/
+the `.` of the directive to the end of its literal), as does the single token of a `.fill`.
+Proved below: `multiword_share_span_holds`. -/
 def multiword_share_span : Prop :=
   ∀ (feat : Bool) (pos : Nat) (rest : List Char) (acc : List Token) (pos' : Nat) (rest' : List Char)
     (acc' : List Token),
     preprocessStep (some feat) pos rest acc = .more pos' rest' acc' →
     ∃ new, acc' = new ++ acc ∧ ∀ t₁ ∈ new, ∀ t₂ ∈ new, t₁.span = t₂.span
+
+/-- `multiword_share_span`, proved: case analysis over one iteration of `preprocess`; the tokens
+of a `.fill` / `.blkw` / `.stringz` are all built by `byteTok _ span` with the one joined span. -/
+theorem multiword_share_span_holds : multiword_share_span := by
+  intro feat pos rest acc pos' rest' acc' h
+  unfold preprocessStep at h
+  split at h
+  · cases h
+  · cases h
+  · split at h
+    · -- fill
+      split at h
+      · cases h
+      · cases h
+      · split at h
+        · cases h
+        · split at h
+          · cases h; exact ⟨[_], rfl, by simp⟩
+          · cases h; exact ⟨[_], rfl, by simp⟩
+          · cases h
+    · -- blkw
+      split at h
+      · cases h
+      · cases h
+      · split at h
+        · cases h
+        · split at h
+          · cases h
+            exact ⟨_, rfl, fun t₁ h₁ t₂ h₂ => by
+              rw [List.eq_of_mem_replicate h₁, List.eq_of_mem_replicate h₂]⟩
+          · cases h
+            exact ⟨_, rfl, fun t₁ h₁ t₂ h₂ => by
+              rw [List.eq_of_mem_replicate h₁, List.eq_of_mem_replicate h₂]⟩
+          · cases h
+    · -- stringz
+      split at h
+      · cases h
+      · cases h
+      · split at h
+        · split at h
+          · cases h
+          · split at h
+            · cases h
+            · cases h
+              rename_i span _ _ body _ _
+              refine ⟨byteTok 0 span :: ((unescape body).map (fun c => byteTok (charWord c) span)).reverse, by simp, ?_⟩
+              have key : ∀ t ∈ byteTok 0 span :: ((unescape body).map (fun c => byteTok (charWord c) span)).reverse, t.span = span := by
+                intro t ht
+                rcases List.mem_cons.mp ht with rfl | ht
+                · rfl
+                · rw [List.mem_reverse, List.mem_map] at ht
+                  obtain ⟨c, _, rfl⟩ := ht
+                  rfl
+              intro t₁ h₁ t₂ h₂
+              rw [key t₁ h₁, key t₂ h₂]
+        · cases h
+    · cases h; exact ⟨[_], rfl, by simp⟩
+    · cases h; exact ⟨[], rfl, by simp⟩
+    · cases h; exact ⟨[], rfl, by simp⟩
+    · cases h
+    · cases h
+    · cases h; exact ⟨[_], rfl, by simp⟩
 
 /-- Full text-level statement: the slice of a rendered program at statement `i`'s span is
 `renderStatement` of statement `i`.  Needs C01's `render` (stage 3); STATED as a schema over any
